@@ -219,6 +219,8 @@ type Item struct {
 	Cleanup  bool     `json:"cleanup,omitempty"`
 	Err      bool     `json:"err,omitempty"`
 	Variadic bool     `json:"variadic,omitempty"`
+	// Mutate: after logging, the function adds 7 to the Scratch_ field of every struct it receives by pointer.
+	Mutate bool `json:"mutate,omitempty"`
 	// raw result list override for signature tests (C09)
 	RawResults []string `json:"raw_results,omitempty"`
 	Stub       bool     `json:"stub,omitempty"` // body panics; never executed
